@@ -305,6 +305,62 @@ Example c10_ex_module_sibling :
   /\ lower_ref_m new (ex_ms [[109]; [110]]) ([], [107]) = OValue.
 Proof. vm_compute. auto 20. Qed.
 
+(* value positions inside modules, open frames: with the parent walk the parent's declaration is what the name means; with
+   pop_front both qualified attempts fail and the identifier as written decides -- in an open frame that is INFERENCE: the
+   parent's constant silently becomes a column of the database table (C10-F3 in a value position) *)
+Theorem parent_value_found : forall c mods sc m n id r,
+  cfg_parent_walk c = true ->
+  (exists e, resolve_core_m mods sc ([m; n] ++ fst id, snd id) = RErr e) ->
+  resolve_core_m mods sc ([m] ++ fst id, snd id) = r -> (forall e, r <> RErr e) ->
+  resolve_enclosing c mods sc [m; n] id = r.
+Proof. exact ScopeProofs.parent_value_found. Qed.
+Print Assumptions parent_value_found.
+
+Theorem pop_front_leaves_parents_name_to_inference : forall c mods sc m n id,
+  cfg_parent_walk c = false ->
+  (exists e, resolve_core_m mods sc ([m; n] ++ fst id, snd id) = RErr e) ->
+  (exists e, resolve_core_m mods sc ([n] ++ fst id, snd id) = RErr e) ->
+  resolve_enclosing c mods sc [m; n] id = resolve_core_m mods sc id.
+Proof. exact ScopeProofs.pop_front_leaves_parents_name_to_inference. Qed.
+Print Assumptions pop_front_leaves_parents_name_to_inference.
+
+(* `module m { let k = 5  module n { let q = (from zt | derive {z = k}) } }`, zt a database table *)
+Example c10_ex_module_open_frame :
+  let ms := mkMScope (mkScope [(s_std_name, NModule); (s_db_name, NModule); ([109], NModule)]
+                              (mkFrame [mkInput [122;116] [] true] []) None [] std_names) [[109]; [110]] ex_mods in
+  lower_ref_m (mkCfg false false) ms ([], [107]) = OInferredColumn false 0
+  /\ lower_ref_m (mkCfg false true) ms ([], [107]) = OValue.
+Proof. vm_compute. auto. Qed.
+
+(* ---- type names: `this` and `that` are shadowed while a type annotation is resolved (fold_type) ---- *)
+Theorem type_ref_ignores_frames : forall root f1 t1 f2 t2 par std id,
+  type_ref (mkScope root f1 t1 par std) id = type_ref (mkScope root f2 t2 par std) id.
+Proof. exact ScopeProofs.type_ref_ignores_frames. Qed.
+Print Assumptions type_ref_ignores_frames.
+
+(* a name that denotes no declaration is not a type -- in particular a column, an input alias, this.col *)
+Theorem column_is_never_a_type : forall sc n,
+  names_decl sc n = false -> type_ref sc ([], n) = TErr EUnknown.
+Proof. exact ScopeProofs.column_is_never_a_type. Qed.
+Print Assumptions column_is_never_a_type.
+
+Theorem type_name_not_captured_by_column : forall sc n k,
+  lookup (shadowed sc) ([], n) = [k] -> (k = CRoot NType \/ k = CStd NType \/ k = CParam NType) ->
+  type_ref sc ([], n) = TOk.
+Proof. exact ScopeProofs.type_name_not_captured_by_column. Qed.
+Print Assumptions type_name_not_captured_by_column.
+
+(* `from t | select {int = a, b} | derive {y = (func x <int> -> x + 1) b}`: int is the std type although a column is called int;
+   `<b>`: a column is not a type; `<math>`: a module is not a type *)
+Example c10_ex_type_names :
+  let sc := mkScope [(s_std_name, NModule); (s_db_name, NModule)] (mkFrame [mkInput [116] [[98]] false] [[105;110;116]]) None [] std_names in
+  type_ref sc ([], [105;110;116]) = TOk
+  /\ in_frames sc [105;110;116] = true
+  /\ type_ref sc ([], [98]) = TErr EUnknown
+  /\ type_ref sc ([[116;104;105;115]], [98]) = TErr EUnknown
+  /\ type_ref sc ([], [109;97;116;104]) = TErr ENotAType.
+Proof. vm_compute. auto 10. Qed.
+
 (* ---- every std function checks its arguments ----
    The signature table is regenerated from std.prql; the generic theorems instantiate to EVERY entry, and the check calls
    every entry of the table once with a surplus positional and once with an unknown named argument (stream std-table). *)
